@@ -12,7 +12,7 @@ What is driven: the real ``PPO.learn`` / ``IPPO.learn`` on generated rollouts sh
 The ``dones`` convention (read off the loops, not guessed).  Both loops do, per step,
 ``dones.append(done); ...; done = next_done`` with ``done = np.zeros(num_envs)`` before the first step and
 ``next_done = term | trunc`` of the step just taken.  So the STORED ``dones[t]`` is the done flag produced by step t-1
-("the episode ended BEFORE step t; state t is the first observation of a new episode"), ``dones[0]`` is always 0, and the
+("the episode ended BEFORE step t; state t is the first observation of a new episode"), ``dones[0]`` is always 0 in the loops (a third of the generated rollouts draw it nevertheless, see ``Rollout.experiences``), and the
 flag produced by the last step only travels as ``next_done``.  The statement's d_{t+1} ("episode over after step t") is
 therefore stored ``dones[t+1]`` for t < T-1 and ``next_done`` for t = T-1.  A case draws, per (agent, env), the bit mask
 of the flags PRODUCED by steps 0..T-1 (bit t = d_{t+1}); the rollout stores them one step late exactly as the loops do
@@ -206,6 +206,7 @@ class Rollout:
         if self.code.max() > 255:
             raise HarnessError("too many cells for the tag encoding")
         masks = ro["dones"]
+        self.d0 = [int(x) for x in ro.get("d0", [])]
         self.D = np.zeros((K, T, E), dtype=np.int64)  # D[k, t, e] = d_{t+1}: done flag PRODUCED by step t
         for k in range(K):
             for e in range(E):
@@ -235,7 +236,11 @@ class Rollout:
 
         per = []
         for k in range(self.K):
-            dones = [np.zeros(E)] + [self.D[k, t - 1].astype(np.int8) for t in range(1, T)]
+            # stored dones[0] ("an episode ended before the rollout began"): always 0 in the library's loops, 1 when a caller
+            # carries the flag over from the previous rollout.  d_0 does not occur in the recursion, so it must change nothing.
+            d0 = self.d0[k % len(self.d0)] if self.d0 else 0
+            first = np.array([float((d0 >> e) & 1) for e in range(E)])
+            dones = [first] + [self.D[k, t - 1].astype(np.int8) for t in range(1, T)]
             per.append(dict(
                 states=[self.obs[k][t] for t in range(T)], actions=[self.act[k][t] for t in range(T)],
                 log_probs=[col(self.LP[k, t].copy()) for t in range(T)], rewards=[self.R[k, t].copy() for t in range(T)],
@@ -621,6 +626,10 @@ def label_rollout(ctx, L, rd, ro):
         ctx.label("done@next_done")
     if not rd.D.any():
         ctx.label("no-done")
+    if any(rd.d0):
+        ctx.label("stored-dones[0]=1(carried-over)")
+        if any((d >> e) & 1 and not rd.D[k, T - 1, e] for k, d in enumerate(rd.d0) for e in range(E)):
+            ctx.label("stored-dones[0]=1&next_done=0")
     if L.algo == "IPPO":
         ctx.label("groups=" + "+".join(str(len(m)) for _, m in L.groups))
     ctx.label(f"rewards={ro.get('rdtype', 'f64')}")
@@ -708,7 +717,8 @@ def rollout_strategy(draw, K, tier):
                 row.append(draw(st.integers(0, full)) & draw(st.integers(0, full)))
         masks.append(row)
     n = K * T * E
-    return {"T": T, "E": E, "gamma": draw(coef()), "lam": draw(coef()), "dones": masks,
+    d0 = [draw(st.integers(0, (1 << E) - 1)) for _ in range(K)] if draw(st.sampled_from([0, 0, 1])) else []
+    return {"T": T, "E": E, "d0": d0, "gamma": draw(coef()), "lam": draw(coef()), "dones": masks,
             "seed": draw(st.integers(0, 99999)), "rdtype": draw(st.sampled_from(["f64", "f64", "f32"])),
             "rscale": draw(st.sampled_from([1.0, 1.0, 0.0, 10.0])), "vscale": draw(st.sampled_from([1.0, 1.0, 4.0])),
             "batch_size": draw(st.sampled_from([2, 3, 4, 8, max(2, n), max(2, n + 3)])),
@@ -832,7 +842,7 @@ PROPERTY = Property(
                    shrink_budget={"quick": 40, "thorough": 300}),
     ],
     assumptions=[
-        "stored dones[t] is the done flag produced by step t-1 (dones[0] = 0), next_done the one produced by the last step - as "
+        "stored dones[t] is the done flag produced by step t-1 (dones[0] = 0 as the loops store it; one third of the rollouts draw it, as a caller carrying the flag over would: d_0 is not in the recursion and must change nothing), next_done the one produced by the last step - as "
         "train_on_policy / train_multi_agent_on_policy store them; so d_{t+1} of the statement is dones[t+1] resp. next_done",
         "loop obligations: the environment is duck-typed (num_envs + the gymnasium / PettingZoo-parallel call signatures the loops "
         "use), tournament=None, mutation=None; dones[0] of a rollout is not examined (no estimate reads it); an exception out of "
@@ -849,7 +859,7 @@ PROPERTY = Property(
         "(innermost agilerl frame in ppo.py, ippo.py or algo_utils.py) before the policy's flattened batch exists; exceptions "
         "from networks / optimisers are labelled and left to C15 / C20",
     ],
-    wanted_labels=["algo=PPO", "algo=IPPO", "T=1", "T=2", "T>=3", "E=1", "E>=2", "gamma=0", "gamma=1", "gamma=interior", "lam=0",
+    wanted_labels=["algo=PPO", "algo=IPPO", "stored-dones[0]=1&next_done=0", "T=1", "T=2", "T>=3", "E=1", "E>=2", "gamma=0", "gamma=1", "gamma=interior", "lam=0",
                    "lam=1", "lam=interior", "done@step0", "done@stored_dones[T-1]", "done@next_done", "no-done", "groups=1", "groups=2",
                    "groups=3", "groups=2+1", "groups=2+2", "nontrivial-rollout", "noleak-checked:interior_done",
                    "noleak-checked:final_next_done", "every-cell-applied-exactly-once", "obs=vector", "obs=image", "obs=dict",
